@@ -616,6 +616,17 @@ func main() {
 		xrun.Explore(r, name, xrun.Opts{Kind: "loop", Bound: ev.Pick(r, 2, 3), Budget: 30, Recycle: 4,
 			Param: loopworld.Cfg{Native: native, Cancel: true, ListFaults: true, LoadFaults: true, StoreFaults: 1, Remote2: true, AppPoints: []string{"none"}}})
 	}
+	// cancellation while the storage is down from the very start (List fails with an ordinary error, whatever the context says)
+	for _, native := range []bool{true} {
+		name := "cancel-during-initial-storage-outage"
+		_ = native
+		if r.Expired() {
+			r.AddPart(&ev.Part{Name: name, Engine: "E3", Exhaustive: false, Bound: "not started: time budget used up"})
+			continue
+		}
+		xrun.Explore(r, name, xrun.Opts{Kind: "loop", Bound: 1, Budget: 30, Recycle: 4,
+			Param: loopworld.Cfg{Native: true, Cancel: true, ListOutage: true, AppPoints: []string{"none"}}})
+	}
 	// the receiver with its downloaders and the shared token pools: no goroutine may wait forever for a token
 	// (an undecodable blob exercises every error path of the downloader)
 	for _, pl := range [][]string{{"b:newest"}, {"b:newest", "c:newest"}} {
